@@ -162,6 +162,8 @@ pub struct Sim {
     rr: usize,
     pub classes: BTreeMap<&'static str, u64>,
     pub has_backend: bool,
+    /// outstanding deferred effect completions (the environment must step to deliver them)
+    pub env_poke: Arc<AtomicUsize>,
 }
 
 pub const VIS_ALL: usize = usize::MAX / 2;
@@ -190,7 +192,7 @@ impl Sim {
         if let Some(b) = backend {
             env.set_effect_backend(b);
         }
-        Sim { env, workers, chans, clock: 0, cfg, trace, moves: 0, sched_pos: 0, rr: 0, classes: BTreeMap::new(), has_backend }
+        Sim { env, workers, chans, clock: 0, cfg, trace, moves: 0, sched_pos: 0, rr: 0, classes: BTreeMap::new(), has_backend, env_poke: Arc::new(AtomicUsize::new(0)) }
     }
 
     pub fn class(&mut self, c: &'static str) {
@@ -213,7 +215,7 @@ impl Sim {
     }
 
     pub fn env_enabled(&self) -> bool {
-        (0..self.workers.len()).any(|i| self.evt_len(i) > 0)
+        (0..self.workers.len()).any(|i| self.evt_len(i) > 0) || self.env_poke.load(Ordering::Relaxed) > 0
     }
 
     pub fn next_timeout(&self) -> Option<u64> {
@@ -394,6 +396,11 @@ impl Sim {
     }
 }
 
+thread_local! {
+    /// Set before `run_program` to hand the simulator the backend's pending-completions counter.
+    pub static POKE: std::cell::RefCell<Option<Arc<AtomicUsize>>> = const { std::cell::RefCell::new(None) };
+}
+
 /// Outcome of running one program to completion in the simulator.
 #[derive(Debug, Clone)]
 pub struct ProgRun {
@@ -416,6 +423,9 @@ pub fn run_program(
     mut after: impl FnMut(&mut Sim, &Move) -> Result<(), String>,
 ) -> ProgRun {
     let mut sim = Sim::new(cfg, reg, backend);
+    if let Some(p) = POKE.with(|p| p.borrow_mut().take()) {
+        sim.env_poke = p;
+    }
     let (_pid, rid) = match sim.start(bytecode.clone()) {
         Ok(x) => x,
         Err(e) => {
